@@ -62,10 +62,13 @@ Judge(s, e) ==
   IF o.exc # None THEN "exception"
   ELSE IF e.op = "measured" THEN
        IF ~o.tp_equal THEN "spec.temperature_or_pressure_not_the_specified_one"
-       ELSE IF o.hs_dev > a.tol THEN "spec.enthalpy_or_entropy_not_reproduced"
+       \* (temperature with enthalpy / entropy: the pressure is found to 1 Pa without a final correction of the split: a.hstol)
+       ELSE IF o.hs_dev > a.hstol THEN "spec.enthalpy_or_entropy_not_reproduced"
        ELSE IF ~o.v_bracketed THEN "spec.vapour_fraction_not_at_the_equilibrium_point"
        ELSE IF ~o.boundary_ok THEN "boundary.phase_region"
        ELSE IF o.fug_dev > a.ftol THEN "equilibrium.fugacities_differ"
+       \* ideal package: vapour fraction against an independent Raoult's-law Rachford-Rice solution (1e-9 units; 1e-7 allowed)
+       ELSE IF o.rr_dev > 100 THEN "ideal.split_differs_from_rachford_rice"
        ELSE IF o.scale_dev > a.tol THEN "scaling.products_not_proportional"
        ELSE "ok"
   ELSE IF e.op = "tp_exact" THEN
@@ -81,7 +84,9 @@ Judge(s, e) ==
        ELSE "ok"
 Legal(s) == TRUE
 ObsLegal(e) == TRUE
-Suspended(e) == FALSE
+\* a specification the library refuses (composition outside the two-phase region, temperature with an enthalpy it cannot solve the
+\* pressure for) is no call that returns normally: not judged
+Suspended(e) == e.op = "measured" /\ e.obs.exc \in {"InfeasibleRegion", "NotImplementedError", "OutOfQuantifier"}
 InitFrom(r) == w = r.w /\ c = r.c /\ path = <<>>
 
 ---------------------------------------------------------------------------
